@@ -215,6 +215,9 @@ def drive(mod, tier):
         f"{prop} {tier}: {runs} runs in {wall:.1f}s ({runs / max(wall, 1e-9) * 3600:.0f}/h), "
         f"{new} new violation fingerprint(s), {sum(1 for r in reported if r['status'] == 'known')} known finding(s)"
     )
+    if new:
+        # confirmed, replayable violations stand even if some other fingerprint could not be replayed
+        return core.EXIT_VIOLATION
     if harness_err:
         return core.EXIT_HARNESS
-    return core.EXIT_VIOLATION if new else core.EXIT_OK
+    return core.EXIT_OK
